@@ -673,7 +673,7 @@ func exitTestKind(l *Loop, ifi *ssa.If, stayOnTrue bool) (string, string) {
 				}
 			case *ssa.Store:
 				if fa, ok := v.Addr.(*ssa.FieldAddr); ok {
-					storedFields[fieldOfAddr(fa).Name()] = true
+					storedFields[fieldName(fieldOfAddr(fa))] = true
 				} else {
 					storedFields["*"] = true
 				}
@@ -698,7 +698,7 @@ func exitTestKind(l *Loop, ifi *ssa.If, stayOnTrue bool) (string, string) {
 			}
 			// a load: invariant if nothing in the body can store to that field
 			if fa, ok := v.X.(*ssa.FieldAddr); ok {
-				if storedFields[fieldOfAddr(fa).Name()] || bodyCalls {
+				if storedFields[fieldName(fieldOfAddr(fa))] || bodyCalls {
 					return "", "loop bound is reloaded inside the loop and the loop stores to that field (or calls out): " + Term(b.Y)
 				}
 				continue
@@ -895,7 +895,7 @@ func propC05(r *Run, w *World) {
 				if a.Kind == "mapupdate" && fv == x.fData {
 					okw = okw && x.w.ownedBy(a.Fn, x.data)
 				}
-				r.Check(okw, "AuditMessage."+fv.Name()+" "+a.Kind+" in "+fnName(a.Fn), a.Instr.Pos(), "", "AuditMessage."+fv.Name()+" is written ("+a.Kind+") in "+fnName(a.Fn)+": the memoised result can change between calls")
+				r.Check(okw, "AuditMessage."+fieldName(fv)+" "+a.Kind+" in "+fnName(a.Fn), a.Instr.Pos(), "", "AuditMessage."+fieldName(fv)+" is written ("+a.Kind+") in "+fnName(a.Fn)+": the memoised result can change between calls")
 			}
 		}
 		// auditRuleKeyNew reachable only from enrichData ← Data
@@ -912,7 +912,7 @@ func propC05(r *Run, w *World) {
 		// offset/RawData writers: only the literal in Parse (lemma offset-invariant premise)
 		for _, fv := range []*types.Var{x.fOffset} {
 			for _, a := range Writes(w.FieldAccesses(fv)) {
-				r.Check(x.w.ownedBy(a.Fn, x.parse) && a.Kind == "store", "AuditMessage."+fv.Name()+" written in "+fnName(a.Fn), a.Instr.Pos(), "", "offset is written outside Parse's literal")
+				r.Check(x.w.ownedBy(a.Fn, x.parse) && a.Kind == "store", "AuditMessage."+fieldName(fv)+" written in "+fnName(a.Fn), a.Instr.Pos(), "", "offset is written outside Parse's literal")
 			}
 		}
 		// Tags = Data's error + m.tags
